@@ -81,7 +81,7 @@ leaf_agrees!(c17_unit, (), Unit, 0, 4, ());
 
 #[kani::proof]
 #[kani::unwind(9)]
-//@ tier=quick class=core cap=900 bounds="all finite f32 values"
+//@ tier=thorough class=best cap=1800 bounds="all finite f32 values (float conversions f32<->f64 through serde_json::Number are slow to bit-blast)"
 fn c17_f32() {
     let v = f32::from_bits(kani::any());
     kani::assume(v.is_finite());
@@ -92,7 +92,7 @@ fn c17_f32() {
 
 #[kani::proof]
 #[kani::unwind(12)]
-//@ tier=thorough class=core cap=900 bounds="all finite f64 values"
+//@ tier=thorough class=best cap=1800 bounds="all finite f64 values"
 fn c17_f64() {
     let v = f64::from_bits(kani::any());
     kani::assume(v.is_finite());
@@ -122,7 +122,7 @@ fn c17_string() {
 
 #[kani::proof]
 #[kani::unwind(8)]
-//@ tier=quick class=core cap=1800 bounds="every char below U+0800 (1- and 2-byte UTF-8)" family=char
+//@ tier=quick class=core cap=900 bounds="every char below U+0800 (1- and 2-byte UTF-8)" family=char
 fn c17_char() {
     let v: char = kani::any();
     kani::assume((v as u32) < 0x800);
@@ -132,7 +132,7 @@ fn c17_char() {
 
 #[kani::proof]
 #[kani::unwind(8)]
-//@ tier=quick class=core cap=900 bounds="all Option<u16> values (schema built from stack nodes)"
+//@ tier=thorough class=best cap=1800 bounds="all Option<u16> values (schema built from stack nodes)"
 fn c17_option() {
     let v: Option<u16> = kani::any();
     let mut inner = ManuallyDrop::new(OwnedDataModelType::U16);
@@ -148,7 +148,7 @@ struct NewS(u32);
 
 #[kani::proof]
 #[kani::unwind(9)]
-//@ tier=thorough class=core cap=900 bounds="unit struct and all values of a newtype struct"
+//@ tier=thorough class=best cap=1800 bounds="unit struct and all values of a newtype struct"
 fn c17_unit_and_newtype_struct() {
     let mut nm = Name::fixed("S");
     let su = ManuallyDrop::new(OwnedDataModelType::Struct { name: nm.owned(), data: OwnedData::Unit });
